@@ -35,10 +35,28 @@ def all_values(w, sg):
     return list(range(-(1 << (w - 1)), 1 << (w - 1))) if sg else list(range(0, 1 << w))
 
 
+def _has(t, kinds):
+    if isinstance(t, list):
+        if t and isinstance(t[0], str) and t[0] in kinds:
+            return True
+        return any(_has(x, kinds) for x in t)
+    return False
+
+
 def classify(c):
     if c.get("k") == "pyb":
         return "pyb:slice.indices"
-    return c.get("stream", "?") + ":" + c["e"][0] + (":" + c["e"][1] if c["e"][0] in ("o1", "o2") else "")
+    if c.get("k") == "arr":
+        return "arr:n%d:idx%s%d" % (len(c["elems"]), "s" if G.pyshape(c["idx"], c["sigs"])[1] else "u",
+                                    G.pyshape(c["idx"], c["sigs"])[0])
+    tag = ""
+    if c.get("stream") in ("ext", "exi", "rej", "wsh", "exm"):
+        # which of the audit's input classes the term contains
+        tag = "".join(x for x, ks in (("+int", ("pi",)), ("+enum", ("en", "pe")), ("+Const(v)", ("ca",)), ("+constpat", ("pc",)),
+                                      ("+array2", ("d_array2",))) if _has(c["e"], ks))
+    if c.get("stream") == "rnd" and max(w for w, _ in c["sigs"]) > 8:
+        tag = "+wide"
+    return c.get("stream", "?") + ":" + c["e"][0] + (":" + c["e"][1] if c["e"][0] in ("o1", "o2") else "") + tag
 
 
 RUN_IMPORTS = "Derived"
@@ -49,7 +67,9 @@ def nontrivial(c, obs):
         return len(obs) > 4
     if not obs or obs[0] != 1:
         return False
-    body = obs[3:]
+    body = obs[6:] if c.get("k") == "arr" else obs[3:]
+    if c.get("k") == "arr":
+        return len(set(tuple(body[i:i + 5]) for i in range(0, len(body), 5))) > 1
     rows = [tuple(body[i:i + 5]) for i in range(0, len(body), 5)]
     return c["e"][0] not in ("c", "s") and len(set(rows)) > 1
 
@@ -92,7 +112,7 @@ def gen_cases(tier, seed):
     # structured random
     N = 2500 if not thorough else 60000
     for i in range(N):
-        maxw = 8 if (not thorough or i % 3) else rng.choice((16, 33, 40))
+        maxw = 8 if (i % 3 if thorough else i % 20 != 7) else rng.choice((16, 33, 40))      # quick: 5 % wide operands
         sigs = [G.rand_shape(rng, maxw) for _ in range(rng.randrange(1, 5))]
         g = G.Gen(rng, sigs, maxw=maxw, maxtotal=48 if maxw <= 8 else 120)
         e = g.expr(rng.randrange(1, 5 if not thorough else 7))
@@ -169,11 +189,138 @@ def gen_cases(tier, seed):
         if G.pyshape(e, sigs)[0] > 64:
             continue
         cases.append({"stream": "der", "sigs": sigs, "e": e, "stims": G.stimuli(rng, sigs, 6)})
+    # ---- families added after the coverage audit -------------------------------------------------------------
+    # (1) operands that are not Values: `a + 1`, `1 - a` (reflected), `a << 3`, `3 << a`, enum members, Const(v)
+    ints = (-3, -1, 0, 1, 2, 5) if not thorough else (-9, -4, -3, -2, -1, 0, 1, 2, 3, 5, 8, 255)
+    for op in G.OP2:
+        for sh in SMALL_SHAPES:
+            vals = [[v] for v in all_values(*sh)]
+            for v in (ints if op not in ("<<", ">>") else (-1, 0, 1, 3, 17)):
+                if not thorough and sh[0] == 3 and v in (2, 5):
+                    continue
+                cases.append({"stream": "exi", "sigs": [sh], "e": ["o2", op, ["s", 0], ["pi", v]], "stims": vals})
+                cases.append({"stream": "exi", "sigs": [sh], "e": ["o2", op, ["pi", v], ["s", 0]], "stims": vals})
+            cases.append({"stream": "exi", "sigs": [sh], "e": ["o2", op, ["s", 0], ["ca", rng.choice((0, 1, 2, 6) if op in ("<<", ">>") else ints)]], "stims": vals})
+            ms = sorted({rng.randrange(-4, 8) for _ in range(3)})
+            if op in ("<<", ">>"):
+                ms = [abs(m) for m in ms]
+            cases.append({"stream": "exi", "sigs": [sh], "e": ["o2", op, ["s", 0], ["en", rng.choice(ms), ms, rng.choice("EI")]], "stims": vals})
+            cases.append({"stream": "exi", "sigs": [sh], "e": ["o2", op, ["en", rng.choice(ms), ms, rng.choice("EI")], ["s", 0]], "stims": vals})
+    for sh in SMALL_SHAPES:
+        vals = [[v] for v in all_values(*sh)]
+        one = lambda e: cases.append({"stream": "exi", "sigs": [sh], "e": e, "stims": vals})
+        one(["cat", [["pi", 1], ["s", 0], ["pi", 0], ["pi", 5], ["en", 2, [2, 9], "E"]]])
+        one(["d_mux", ["s", 0], ["pi", -3], ["pi", 4]])
+        one(["d_mux", ["pi", 1], ["s", 0], ["pi", 4]])
+        one(["d_abs", ["o2", "-", ["pi", 1], ["s", 0]]])
+        for v in range(0, 5):
+            one(["d_bsel", ["s", 0], ["pi", v], 2])
+            one(["d_wsel", ["s", 0], ["pi", v], 1])
+    # (2) shift amounts >= 16 and results far wider than 64 bits
+    for sh in ([1, False], [4, False], [4, True], [16, False], [33, True], [40, False]):
+        for aw in (4, 5, 6):
+            w, sg = sh
+            xs = G.boundary_values(w, sg) + [G.rand_value(rng, w, sg) for _ in range(2)]
+            ams = sorted({a for a in (0, 1, 2, 15, 16, 17, 31, 32, 33, 47, 63) if a < (1 << aw)})
+            st = [[x, a] for x in xs for a in ams]
+            for op in ("<<", ">>"):
+                cases.append({"stream": "wsh", "sigs": [sh, [aw, False]], "e": ["o2", op, ["s", 0], ["s", 1]], "stims": st})
+            cases.append({"stream": "wsh", "sigs": [sh, [aw, False]], "stims": st,
+                          "e": ["o2", ">>", ["o2", "<<", ["s", 0], ["s", 1]], ["o2", "+", ["s", 1], ["pi", 1]]]})
+            cases.append({"stream": "wsh", "sigs": [sh, [aw, False]], "stims": st,
+                          "e": ["o2", "<<", ["pi", rng.choice((1, -1, 5, -6))], ["s", 1]]})
+        for n in (16, 17, 31, 40, 64):
+            vals = [[x] for x in G.boundary_values(*sh)]
+            cases.append({"stream": "wsh", "sigs": [sh], "e": ["o2", "<<", ["s", 0], ["pi", n]], "stims": vals})
+            cases.append({"stream": "wsh", "sigs": [sh], "e": ["o2", ">>", ["s", 0], ["pi", n]], "stims": vals})
+            cases.append({"stream": "wsh", "sigs": [sh], "e": ["d_shl", ["s", 0], n], "stims": vals})
+            cases.append({"stream": "wsh", "sigs": [sh], "e": ["d_shr", ["s", 0], n], "stims": vals})
+    # (3) matches() with constant-castable patterns that are not ints: Const of any shape, enum members
+    for sh in SMALL_SHAPES:
+        w, sg = sh
+        vals = [[v] for v in all_values(*sh)]
+        lo, hi = (-(1 << (w - 1)), 1 << (w - 1)) if sg else (0, 1 << w)
+        if w == 0:
+            lo, hi = 0, 1
+        for psh in ([0, False], [1, False], [w + 1, False], [max(1, w), True], [w + 1, True]):
+            for v in range(lo - 1, hi + 1):
+                cases.append({"stream": "exm", "sigs": [sh], "stims": vals, "e": ["d_match", ["s", 0], [], [["pc", v, psh[0], psh[1]]]]})
+        for ms in ([lo, hi - 1], [lo - 1, 0, hi], [0], [hi - 1, hi, hi + 1]):
+            for v in ms:
+                for kind in "EI":
+                    cases.append({"stream": "exm", "sigs": [sh], "stims": vals, "e": ["d_match", ["s", 0], [], [["pe", v, ms, kind]]]})
+        cases.append({"stream": "exm", "sigs": [sh], "stims": vals,
+                      "e": ["d_match", ["s", 0], [], [["pc", lo, w + 2, True], "-" * w, ["pe", hi - 1, [lo, hi - 1], "E"], hi]]})
+    # (4) Array indexing, exhaustively over small index shapes and element counts (more elements than the index can
+    #     address, no element at all, signed indices, Python-int elements); the proxy's own shape() and len() are observed
+    elem_pool = [["s", 1], ["s", 2], ["c", 5, 3, False], ["s", 3], ["pi", -2], ["s", 4], ["ca", 9]]
+    elem_sigs = [[2, False], [3, True], [0, False], [4, True]]
+    for ish in ([0, False], [1, False], [2, False], [1, True], [2, True], [3, True]):
+        for n in range(0, 7):
+            for rot in (0, 3):
+                elems = [elem_pool[(j + rot) % len(elem_pool)] for j in range(n)]
+                sigs = [ish] + elem_sigs
+                st = [[i] + ev for i in all_values(*ish) for ev in ([1, -3, 0, 7], [2, 2, 0, -8])]
+                cases.append({"stream": "arr", "k": "arr", "sigs": sigs, "elems": elems, "idx": ["s", 0], "stims": st, "e": ["d_array", elems, ["s", 0]]})
+    for r_, c_ in itertools.product((1, 2, 3), (1, 2, 3)):
+        for ish, jsh in (([1, False], [2, False]), ([2, False], [1, False]), ([2, True], [2, False]), ([2, False], [2, True])):
+            rows = [[elem_pool[(a * 3 + b) % len(elem_pool)] for b in range(c_)] for a in range(r_)]
+            sigs = [ish] + elem_sigs + [jsh]
+            st = [[i, 1, -3, 0, 7, j] for i in all_values(*ish) for j in all_values(*jsh)]
+            cases.append({"stream": "exi", "sigs": sigs, "e": ["d_array2", rows, ["s", 0], ["s", 5]], "stims": st})
+            for k in range(-c_ - 1, c_ + 1):
+                cases.append({"stream": "rej" if not -c_ <= k < c_ else "exi", "sigs": sigs, "e": ["d_array2", rows, ["s", 0], ["pi", k]], "stims": st[:6]})
+    # (5) documented rejections, compared on the exception class: negative replicate count, indices outside the value,
+    #     zero slice step, signed / negative constant offsets and negative widths of bit_select / word_select
+    for sh in SMALL_SHAPES:
+        w, sg = sh
+        vals = [[v] for v in all_values(*sh)][:2]
+        rej = lambda e, sigs=None: cases.append({"stream": "rej", "sigs": sigs or [sh], "e": e, "stims": vals if sigs is None else [[0, 0]]})
+        for n in (-1, -2):
+            rej(["d_rep", ["s", 0], n])
+        for i in (w, w + 1, -w - 1, -w - 2):
+            rej(["d_idx", ["s", 0], i])
+        for a in (None, 0, w):
+            rej(["d_key", ["s", 0], [a, None, 0]])
+        rej(["o2", "<<", ["s", 0], ["pi", -1]])
+        rej(["o2", ">>", ["s", 0], ["pi", -2]])
+        rej(["o2", "<<", ["pi", 3], ["o1", "-", ["s", 0]]])
+        rej(["o2", ">>", ["s", 0], ["en", -1, [-1, 2], "I"]])
+        rej(["d_match", ["d_idx", ["s", 0], w], [], ["0" * (w + 1)]])          # the operand's IndexError comes first
+        for pw in (-1, 0, 1, 2):
+            for v in range(-w - 2, 0):
+                for osh in ([3, True], [max(2, w + 2), True]):
+                    if -(1 << (osh[0] - 1)) <= v:
+                        rej(["d_bsel", ["s", 0], ["c", v, osh[0], True], pw])
+                        if pw:
+                            rej(["d_wsel", ["s", 0], ["c", v, osh[0], True], pw])
+                rej(["d_bsel", ["s", 0], ["pi", v], pw])
+            rej(["d_bsel", ["s", 0], ["s", 1], pw], sigs=[sh, [2, True]])
+            rej(["d_wsel", ["s", 0], ["s", 1], pw], sigs=[sh, [2, True]])
+            if pw < 0:
+                rej(["d_bsel", ["s", 0], ["s", 1], pw], sigs=[sh, [2, False]])
+                rej(["d_bsel", ["s", 0], ["c", 0, 1, False], pw])
+    # (6) random trees over all of the above (Python ints / enum members / Const(v) operands, wide shift amounts, constant
+    #     patterns, big / signed-index / nested Arrays) nested in one another
+    X = 1200 if not thorough else 25000
+    for i in range(X):
+        maxw = 6 if i % 10 else rng.choice((16, 33))
+        sigs = [G.rand_shape(rng, maxw) for _ in range(rng.randrange(1, 4))]
+        g = G.Gen(rng, sigs, maxw=maxw, maxtotal=80, derived=True, ext=True)
+        e = g.derived_node(rng.randrange(1, 3)) if i % 3 == 0 else g.expr(rng.randrange(1, 4))
+        if e[0] in ("pi", "en"):
+            continue
+        try:
+            if G.pyshape(e, sigs)[0] > 160:
+                continue
+        except Exception:
+            pass
+        cases.append({"stream": "ext", "sigs": sigs, "e": e, "stims": G.stimuli(rng, sigs, 6)})
     # malformed
     M = 400 if not thorough else 5000
     for i in range(M):
         sigs = [G.rand_shape(rng, 5) for _ in range(2)]
-        g = G.Gen(rng, sigs, maxw=5, malformed=True)
+        g = G.Gen(rng, sigs, maxw=5, malformed=True, ext=(i % 4 == 3))
         cases.append({"stream": "mal", "sigs": sigs, "e": g.expr(rng.randrange(1, 4)), "stims": G.stimuli(rng, sigs, 1)})
     return cases
 
@@ -185,32 +332,37 @@ def run_impl(c):
         except ValueError:
             return [0]
         return [1, a, b, st] + list(range(a, b, st))
-    from amaranth.hdl import Signal, Shape, Module
+    from amaranth.hdl import Signal, Shape, Module, Value, Array
     from amaranth.sim import Simulator
     sigs = [Signal(Shape(w, bool(s)), name=f"i{k}") for k, (w, s) in enumerate(c["sigs"])]
+    head = []
     try:
-        e = G.build(c["e"], sigs)
-    except (TypeError, ValueError, IndexError, SyntaxError) as ex:
-        return [0]
+        if c.get("k") == "arr":
+            proxy = Array([G.build(x, sigs) for x in c["elems"]])[G.build(c["idx"], sigs)]
+            psh = proxy.shape()                       # ArrayProxy.shape(): over ALL elements
+            e = Value.cast(proxy)
+            head = [psh.width, int(psh.signed), len(proxy)]
+            probe = proxy                             # ctx.get(proxy): the value-castable itself
+        else:
+            e = probe = G.build(c["e"], sigs)
     except Exception as ex:
-        if type(ex).__name__ in ("SyntaxError",):
-            return [0]
-        return [-1, sum(map(ord, type(ex).__name__))]
+        code = ERR_CLASS.get(type(ex).__name__)
+        return [0, code] if code else [-1, sum(map(ord, type(ex).__name__))]
     try:
         sh = e.shape()
         o = Signal(sh, name="o")
         o2 = Signal(Shape(sh.width + 3, True), name="o2")
         o3 = Signal(Shape(2, False), name="o3")
         m = Module()
-        m.d.comb += [o.eq(e), o2.eq(e), o3.eq(e)]
-        out = [1, sh.width, int(sh.signed)]
+        m.d.comb += [o.eq(probe), o2.eq(e), o3.eq(e)]
+        out = [1] + head + [sh.width, int(sh.signed)]
         sim = Simulator(m)
 
         async def tb(ctx):
             for st in c["stims"]:
                 for s, v in zip(sigs, st):
                     ctx.set(s, v)
-                out.extend([ctx.get(o), ctx.get(o2), ctx.get(o3), ctx.get(e), ctx.get(o)])
+                out.extend([ctx.get(o), ctx.get(o2), ctx.get(o3), ctx.get(probe), ctx.get(o)])
         sim.add_testbench(tb)
         sim.run()
         return out
@@ -218,14 +370,22 @@ def run_impl(c):
         return [-1, sum(map(ord, type(ex).__name__))]
 
 
+# exception classes of a rejected construction (compared by NAME: amaranth defines its own SyntaxError), as Derived.build_err
+ERR_CLASS = {"TypeError": 1, "ValueError": 2, "IndexError": 3, "SyntaxError": 4}
+
+
 def coq_term(c):
     if c.get("k") == "pyb":
         o = lambda x: "None" if x is None else f"(Some {z(x)})"
         k = c["key"]
         return f"k_key_indices {z(c['len'])} (Key {o(k[0])} {o(k[1])} {o(k[2])})"
-    return f"k_expr {G.coq_expr(c['e'], c['sigs'])} [" + "; ".join(zlist(s) for s in c["stims"]) + "]"
+    stims = "[" + "; ".join(zlist(s) for s in c["stims"]) + "]"
+    if c.get("k") == "arr":
+        return "k_array [" + "; ".join(G.coq_expr(x, c["sigs"]) for x in c["elems"]) + f"] {G.coq_expr(c['idx'], c['sigs'])} {stims}"
+    return f"k_expr {G.coq_expr(c['e'], c['sigs'])} {stims}"
 
 
 def explain(c):
     return ("answers: [1, width, signed] then per stimulus [circuit o, circuit o2 (signed w+3), circuit o3 (unsigned 2), "
-            "testbench ctx.get(e), spec value]; [0] = rejected at construction")
+            "testbench ctx.get(e), spec value]; [0, c] = rejected at construction with exception class c (1 TypeError, 2 ValueError, "
+            "3 IndexError, 4 SyntaxError); k=arr: [1, ArrayProxy.shape() width, signed, len(proxy), width, signed] then the same rows")
